@@ -313,6 +313,7 @@ func runC16(c *Ctx) {
 	R := c.R
 	R.Rule = "histories over {Append k rows, Reset, Prepare, encode via EncodeColumn / WriteColumn+Flush / EncodeRawBlock, Infer(own type), Reset+DecodeColumn of valid data, Reset+failed (truncated) DecodeColumn, Rows/Row(i)} on real columns of every type and composition; after every encode the bytes are decoded by a fresh column and compared with a plain list-of-values model kept by the harness, with the encoding of a fresh column holding the same contents, and with the Lean model's bytes. Exhaustive short histories for LowCardinality / Enum / Array; random histories up to length 40 elsewhere. non-trivial = more than two steps; distinct by (type, history)."
 	r := c.Rng
+	c16ZeroRowBlockAfterRows(c, r.Fork())
 	// exhaustive short histories over a small alphabet on the stateful types
 	alpha := []string{"append", "encode", "reset", "decode", "block"}
 	maxLen := 4
@@ -368,5 +369,94 @@ func runC16(c *Ctx) {
 	for i := 0; i < n; i++ {
 		t := genType(r)
 		c16History(c, r.Fork(), t, 5+r.Intn(36), nil)
+	}
+}
+
+// result columns reused by the receive loop: after a block with rows, a block of the same schema WITHOUT rows (a header block,
+// an empty result) must leave the targets as a fresh set of targets would be — empty
+func c16ZeroRowBlockAfterRows(c *Ctx, r *Rng) {
+	R := c.R
+	n := 25
+	if c.Thorough {
+		n = 600
+	}
+	for i := 0; i < n; i++ {
+		ncols := 1 + r.Intn(3)
+		var types []*TNode
+		for j := 0; j < ncols; j++ {
+			t := genType(r)
+			for unorderedMaps(t, false) {
+				t = genType(r)
+			}
+			types = append(types, t)
+		}
+		mk := func(rows int) ([]blockCol, []byte) {
+			k := 0
+			cols, err := buildCols(r, ncols, rows, genOpts{}, func() *TNode { k++; return types[k-1] })
+			if err != nil {
+				return nil, nil
+			}
+			var buf proto.Buffer
+			blk := proto.Block{Columns: ncols, Rows: rows}
+			if blk.EncodeRawBlock(&buf, 54460, inputOf(cols)) != nil {
+				return nil, nil
+			}
+			return cols, buf.Buf
+		}
+		rows := 1 + r.Intn(5)
+		full, b1 := mk(rows)
+		empty, b0 := mk(0)
+		if full == nil || empty == nil {
+			continue
+		}
+		var res proto.Results
+		for j, t := range types {
+			col, err := newColumn(t)
+			if err != nil {
+				res = nil
+				break
+			}
+			res = append(res, proto.ResultColumn{Name: full[j].name, Data: col})
+		}
+		if res == nil {
+			continue
+		}
+		for j := range empty {
+			empty[j].name = full[j].name
+		}
+		// re-encode the empty block with the same names
+		{
+			var buf proto.Buffer
+			blk := proto.Block{Columns: ncols, Rows: 0}
+			if blk.EncodeRawBlock(&buf, 54460, inputOf(empty)) != nil {
+				continue
+			}
+			b0 = buf.Buf
+		}
+		var names []string
+		for _, t := range types {
+			names = append(names, t.CH)
+		}
+		cs := map[string]any{"types": names, "rows_first_block": rows, "history": "DecodeRawBlock(rows) ; DecodeRawBlock(0 rows) into the same targets"}
+		R.Case("zero-row-after-rows|"+strings.Join(names, ";")+fmt.Sprint(rows), true)
+		R.Count("shape:zero-row-block-after-rows")
+		var blk1, blk0 proto.Block
+		var e1, e0 error
+		if p, msg := safely(func() {
+			e1 = blk1.DecodeRawBlock(proto.NewReader(bytes.NewReader(b1)), 54460, res)
+			e0 = blk0.DecodeRawBlock(proto.NewReader(bytes.NewReader(b0)), 54460, res)
+		}); p {
+			R.Violate(Violation{Kind: "oracle", Key: "reuse-decode-panics", What: "decoding into reused targets panicked: " + msg, Case: cs})
+			continue
+		}
+		if e1 != nil || e0 != nil {
+			continue
+		}
+		for j, rc := range res {
+			if got := rc.Data.(proto.Column).Rows(); got != 0 {
+				R.Violate(Violation{Kind: "oracle", Key: "reuse-decode-differs-from-fresh", What: fmt.Sprintf("target %d (%s) holds %d rows after a block without rows; a fresh target holds 0", j, names[j], got), Case: cs})
+				break
+			}
+		}
 	}
 }
